@@ -27,7 +27,7 @@ var (
 	hangGen  atomic.Int64
 	hangSeq  atomic.Int64
 	hangTick atomic.Int64
-	hangOnce  atomic.Bool
+	hangOnce atomic.Bool
 	// hangNote: set when the kernel has reached a verdict and releases the tasks to unwind; a
 	// task that then blocks on a real lock keeps the bubble from ending. The watcher waits only
 	// 10 s from the moment it first sees the note.
